@@ -178,14 +178,19 @@ def sanity_griffe() -> dict:
 
 
 def write_replay(ctx: Ctx, payload: dict) -> str:
-    d = VERIF / "replays"
+    d = Path(os.environ.get("VERIF_REPLAY_DIR", VERIF / "replays"))   # a mirror run (bin/check) writes into the main directory
     d.mkdir(exist_ok=True)
     k = 0
     while (d / f"{ctx.prop_id}-{ctx.seed}-{k}.json").exists():
         k += 1
     p = d / f"{ctx.prop_id}-{ctx.seed}-{k}.json"
     p.write_text(json.dumps(payload, indent=1, default=str))
-    return str(p.relative_to(VERIF))
+    for base in (VERIF, d.parent):
+        try:
+            return str(p.relative_to(base))
+        except ValueError:
+            pass
+    return str(p)
 
 
 def run_check(prop_id: str, tier: str, seed: int) -> int:
